@@ -27,6 +27,7 @@ import (
 	"sort"
 	"strconv"
 	"strings"
+	"sync"
 	"time"
 
 	"github.com/andybalholm/brotli"
@@ -64,6 +65,9 @@ type c18In struct {
 	Ret    int      `json:"ret,omitempty"`
 	// big: writes are generated (size, kind) pairs
 	Big []c18BigW `json:"big,omitempty"`
+	// burst: concurrent requests, each with its own generated writes
+	Burst  [][]c18BigW `json:"burst,omitempty"`
+	Rounds int         `json:"rounds,omitempty"`
 }
 type c18BigW struct {
 	N     int  `json:"n"`
@@ -75,18 +79,31 @@ type c18BigW struct {
 // ---------------------------------------------------------------------------------------------
 // probe directive (innermost middleware): runs the current script when asked to
 
-var c18Cur struct {
+type c18Script struct {
 	script []c18Op
 	ret    int
+}
+
+var c18Cur c18Script // the script of sequential cases (X-C18-Probe: 1)
+var c18Burst struct { // scripts of concurrent bursts (X-C18-Probe: b<i>)
+	sync.RWMutex
+	m map[string]c18Script
 }
 
 type c18Probe struct{ next httpserver.Handler }
 
 func (p c18Probe) ServeHTTP(w http.ResponseWriter, r *http.Request) (int, error) {
-	if r.Header.Get("X-C18-Probe") == "" {
+	id := r.Header.Get("X-C18-Probe")
+	if id == "" {
 		return p.next.ServeHTTP(w, r)
 	}
-	for _, o := range c18Cur.script {
+	sc := c18Cur
+	if id != "1" {
+		c18Burst.RLock()
+		sc = c18Burst.m[id]
+		c18Burst.RUnlock()
+	}
+	for _, o := range sc.script {
 		switch o.K {
 		case "set":
 			w.Header().Set(o.A, o.B)
@@ -104,7 +121,7 @@ func (p c18Probe) ServeHTTP(w http.ResponseWriter, r *http.Request) (int, error)
 			}
 		}
 	}
-	return c18Cur.ret, nil
+	return sc.ret, nil
 }
 
 // ---------------------------------------------------------------------------------------------
@@ -238,6 +255,11 @@ func c18Fixture() string {
 		base = filepath.Join(base, "run")
 	}
 	os.MkdirAll(base, 0o755)
+	if old, _ := filepath.Glob(filepath.Join(base, "c18fix*")); len(old) > 0 {
+		for _, d := range old { // fixtures of earlier runs
+			os.RemoveAll(d)
+		}
+	}
 	root, err := os.MkdirTemp(base, "c18fix")
 	if err != nil {
 		panic(err)
@@ -602,6 +624,29 @@ func c18Hazard(in *c18In) string {
 // ---------------------------------------------------------------------------------------------
 // run
 
+func c18BigScript(ws []c18BigW) ([]c18Op, int) {
+	script := []c18Op{{K: "set", A: "Content-Type", B: "application/octet-stream"}}
+	total := 0
+	for _, w := range ws {
+		d := make([]byte, w.N)
+		s := uint32(w.Seed)*2654435761 + 12345
+		for i := range d {
+			s = s*1664525 + 1013904223
+			if w.Rnd {
+				d[i] = byte(s >> 24)
+			} else {
+				d[i] = "abcdefgh\n"[(s>>28)%9]
+			}
+		}
+		total += w.N
+		script = append(script, c18Op{K: "w", D: d})
+		if w.Flush {
+			script = append(script, c18Op{K: "f"})
+		}
+	}
+	return script, total
+}
+
 func c18Skip(class, why string) Result {
 	return Result{Term: "CSkip", Obs: why, Class: class, Sig: class}
 }
@@ -647,7 +692,7 @@ func c18Run(in0 interface{}) Result {
 	switch in.Kind {
 	case "script":
 		hdr["X-C18-Probe"] = "1"
-		c18Cur.script, c18Cur.ret = in.Script, in.Ret
+		c18Cur = c18Script{script: in.Script, ret: in.Ret}
 		G := c18Do(gsite.addr, method, in.Path, hdr)
 		P := c18Do(psite.addr, method, in.Path, hdr)
 		e := &c18Emit{}
@@ -681,26 +726,8 @@ func c18Run(in0 interface{}) Result {
 			Nontrivial: compressed || len(P.CE) > 0}
 	case "big":
 		hdr["X-C18-Probe"] = "1"
-		script := []c18Op{{K: "set", A: "Content-Type", B: "application/octet-stream"}}
-		total := 0
-		for _, w := range in.Big {
-			d := make([]byte, w.N)
-			s := uint32(w.Seed)*2654435761 + 12345
-			for i := range d {
-				s = s*1664525 + 1013904223
-				if w.Rnd {
-					d[i] = byte(s >> 24)
-				} else {
-					d[i] = "abcdefgh\n"[(s>>28)%9]
-				}
-			}
-			total += w.N
-			script = append(script, c18Op{K: "w", D: d})
-			if w.Flush {
-				script = append(script, c18Op{K: "f"})
-			}
-		}
-		c18Cur.script, c18Cur.ret = script, 0
+		script, total := c18BigScript(in.Big)
+		c18Cur = c18Script{script: script}
 		G := c18Do(gsite.addr, method, in.Path, hdr)
 		P := c18Do(psite.addr, method, in.Path, hdr)
 		sameStatus := G.Status == P.Status && G.Err == ""
@@ -713,6 +740,62 @@ func c18Run(in0 interface{}) Result {
 		term := cApp("CBig", cBool(sameStatus), cBool(sameView), cBool(ceExact), cBool(clFine))
 		return Result{Term: term, Obs: map[string]interface{}{"G": G.brief(), "P": P.brief(), "total": total}, Sig: "big",
 			Class: fmt.Sprintf("big:gz=%v", len(G.CE) == 1), Nontrivial: len(G.CE) == 1, Key: fmt.Sprintf("%v|%s|%s", in.Big, ae, in.Path)}
+	case "burst":
+		// concurrent requests through the same pooled writers; every response must decode to
+		// its own request's body
+		c18Burst.Lock()
+		c18Burst.m = map[string]c18Script{}
+		want := make([][]byte, len(in.Burst))
+		for i, ws := range in.Burst {
+			script, _ := c18BigScript(ws)
+			c18Burst.m[fmt.Sprintf("b%d", i)] = c18Script{script: script}
+			for _, o := range script {
+				want[i] = append(want[i], o.D...)
+			}
+		}
+		c18Burst.Unlock()
+		rounds := in.Rounds
+		if rounds <= 0 {
+			rounds = 1
+		}
+		sameStatus, sameView, ceExact, clFine := true, true, true, true
+		var firstBad map[string]interface{}
+		var mu sync.Mutex
+		ngz := 0
+		for round := 0; round < rounds; round++ {
+			var wg sync.WaitGroup
+			for i := range in.Burst {
+				wg.Add(1)
+				go func(i int) {
+					defer wg.Done()
+					h := map[string]string{"X-C18-Probe": fmt.Sprintf("b%d", i)}
+					if !in.NoAE {
+						h["Accept-Encoding"] = in.AE
+					}
+					G := c18Do(gsite.addr, method, in.Path, h)
+					mu.Lock()
+					defer mu.Unlock()
+					st := G.Status == 200 && G.Err == ""
+					vw := G.VOK && len(G.VCod) == 0 && bytes.Equal(G.View, want[i])
+					ce := (len(G.CE) == 0 && bytes.Equal(G.Body, want[i])) || (len(G.CE) == 1 && G.CE[0] == "gzip" && G.GunzOK && bytes.Equal(G.Gunz, want[i]))
+					cl := len(G.CL) == 0 || (len(G.CL) == 1 && G.CL[0] == strconv.Itoa(len(G.Body)))
+					if len(G.CE) == 1 {
+						ngz++
+					}
+					if !(st && vw && ce && cl) && firstBad == nil {
+						firstBad = G.brief()
+						firstBad["request"] = i
+						firstBad["round"] = round
+						firstBad["want_len"] = len(want[i])
+					}
+					sameStatus, sameView, ceExact, clFine = sameStatus && st, sameView && vw, ceExact && ce, clFine && cl
+				}(i)
+			}
+			wg.Wait()
+		}
+		term := cApp("CBig", cBool(sameStatus), cBool(sameView), cBool(ceExact), cBool(clFine))
+		return Result{Term: term, Obs: map[string]interface{}{"requests": len(in.Burst) * rounds, "compressed": ngz, "first_bad": firstBad}, Sig: "burst",
+			Class: fmt.Sprintf("burst:gz=%v", ngz > 0), Nontrivial: ngz > 0, Key: fmt.Sprintf("%v|%s|%d", in.Burst, ae, rounds)}
 	}
 	panic("bad kind " + in.Kind)
 }
@@ -923,9 +1006,9 @@ func c18GenScript(r *Rand, cfgs []c18Cfg, hazard string) ([]c18Op, int) {
 
 func c18Gen(r *Rand, tier string) []interface{} {
 	var out []interface{}
-	nCfg, perCfgScript, perCfgStatic, nBig, nExt := 14, 70, 60, 16, 150
+	nCfg, perCfgScript, perCfgStatic, nBig, nExt, nBurst := 14, 70, 60, 16, 150, 6
 	if tier == "thorough" {
-		nCfg, perCfgScript, perCfgStatic, nBig, nExt = 48, 220, 180, 120, 1500
+		nCfg, perCfgScript, perCfgStatic, nBig, nExt, nBurst = 48, 220, 180, 120, 1500, 40
 	}
 	c18Fixture()
 	var names []string
@@ -995,6 +1078,18 @@ func c18Gen(r *Rand, tier string) []interface{} {
 		nw := r.Range(1, 5)
 		for j := 0; j < nw; j++ {
 			in.Big = append(in.Big, c18BigW{N: c18PickInt(r, []int{1, 2047, 2048, 4096, 32768, 32769, 70000, 300000}), Rnd: r.Chance(40), Flush: r.Chance(30), Seed: r.Intn(1 << 20)})
+		}
+		out = append(out, in)
+	}
+	for i := 0; i < nBurst; i++ {
+		in := &c18In{Kind: "burst", Cfgs: []c18Cfg{{Level: r.Pick([]string{"", "1", "9"})}}, Method: "GET", Path: "/burst.txt",
+			AE: r.Pick([]string{"gzip", "gzip", "gzip, br"}), Rounds: 3}
+		for k := 0; k < 8; k++ {
+			var ws []c18BigW
+			for j := r.Range(1, 3); j > 0; j-- {
+				ws = append(ws, c18BigW{N: c18PickInt(r, []int{100, 5000, 40000, 150000}), Rnd: r.Chance(30), Flush: r.Chance(20), Seed: r.Intn(1 << 20)})
+			}
+			in.Burst = append(in.Burst, ws)
 		}
 		out = append(out, in)
 	}
